@@ -259,6 +259,9 @@ def run(P, R, tier):
     # task keys: a `dask_key_name=` given to a delayed read names the task; dask runs ONE task per name, so every argument that changes what the task
     # returns must be part of the name -- the geometry= choice in particular (S10)
     from rules import common as _cmn
+    if R.prop == 'C20':        # not when C06 runs these rules as part of its own (C09 depends on C06: that would be a cycle)
+      _cmn.forward(P, R, 'C09', ['C09.a', 'C09.b'], 'C20.b', 'packing orders the rows along the ACTIVE geometry: distances from self.geometry against its own total bounds, recomputed on every call', floor=10,
+                   only=lambda o: not o.detail.startswith('['))
     _cmn.task_names(P, R, 'C20.d', [prd] + list(prd.nested.values()), 'the second frame\'s partitions use the other read\'s active geometry while its meta advertises its own')
     from rules import C12
     sub = type(R)(R.prop, R.tier)
